@@ -125,14 +125,36 @@ left operand has no partner (pandas would produce NaN there). -/
 def mulAligned (v w : Series) : Option Series :=
   v.mapM fun (i, x) => (w.lookup i).map fun y => (i, x * y)
 
-/-- a number or a Series (what the numeric probes produce) -/
+/-- a `pd.DataFrame` indexed by simulant: its columns, each a label-aligned Series over the same index -/
+abbrev Frame := List (String × Series)
+
+/-- the numeric Python values the probes produce: a number, a `pd.Series`, a `pd.DataFrame` (several
+values per simulant) or a `np.ndarray` (no index) -/
 inductive Item
   | sc (x : Rat)
   | se (s : Series)
+  | fr (cols : Frame)
+  | arr (xs : List Rat)
   deriving DecidableEq, Repr
 
 /-- `utilities.from_yearly`: `value * (time_step.total_seconds() / (60 * 60 * 24 * 365.0))` -/
 def fromYearly (x step : Rat) : Rat := x * (step / yearSeconds)
+
+/-- `hasattr(value, "index")`: true of a Series and of a DataFrame (and of a Python list or tuple,
+whose `index` is a method – those have no `mul` and the call raises AttributeError; see the driver),
+false of numbers and of numpy arrays -/
+def Item.hasIndexAttr : Item → Bool
+  | .sc _ => false
+  | .se _ => true
+  | .fr _ => true
+  | .arr _ => false
+
+/-- `DataFrame.index` (every column carries it) -/
+def frameIndex (cols : Frame) : List Nat := (cols.head?.map fun c => c.2.map (·.1)).getD []
+
+/-- the per-simulant factors `manager.simulant_step_sizes(index).dt.total_seconds() / (60*60*24*365.0)` -/
+def Steps.factors (st : Steps) (index : List Nat) : Series :=
+  (st.simulantStepSizes index).map fun (i, s) => (i, s / yearSeconds)
 
 /-- `rescale_post_processor`:
 ```
@@ -140,12 +162,14 @@ if hasattr(value, "index"):
     return value.mul(manager.simulant_step_sizes(value.index).dt.total_seconds() / (60*60*24*365.0), axis=0)
 else:
     return from_yearly(value, manager.step_size())
-``` -/
+```
+`mul(…, axis=0)` multiplies every column of a DataFrame by the factor with the row's label. -/
 def rescale (st : Steps) : Item → Option Item
   | .sc x => some (.sc (fromYearly x st.global))
-  | .se v =>
-    let w := (st.simulantStepSizes (v.map (·.1))).map fun (i, s) => (i, s / yearSeconds)
-    (mulAligned v w).map .se
+  | .arr xs => some (.arr (xs.map fun x => fromYearly x st.global))
+  | .se v => (mulAligned v (st.factors (v.map (·.1)))).map .se
+  | .fr cols =>
+    (cols.mapM fun (c : String × Series) => (mulAligned c.2 (st.factors (frameIndex cols))).map fun s => (c.1, s)).map .fr
 
 /-- `union_post_processor` on numbers:
 ```
@@ -161,15 +185,28 @@ def union : List Rat → Rat
 def Item.oneMinus : Item → Item
   | .sc x => .sc (1 - x)
   | .se s => .se (s.map fun (i, x) => (i, 1 - x))
+  | .fr cols => .fr (cols.map fun (c : String × Series) => (c.1, c.2.map fun (i, x) => (i, 1 - x)))
+  | .arr xs => .arr (xs.map fun x => 1 - x)
 
-/-- `product * new_value` with pandas broadcasting; two Series must carry the same index (they do:
-every contribution is computed for the index the pipeline was called with) -/
+/-- `product * new_value` with pandas broadcasting; two Series (two DataFrames) must carry the same
+index (and columns) – they do: every contribution is computed for the index the pipeline was called
+with. Mixed Series / DataFrame / array products are not modelled (`none`). -/
 def Item.mul : Item → Item → Option Item
   | .sc x, .sc y => some (.sc (x * y))
   | .sc x, .se s => some (.se (s.map fun (i, y) => (i, x * y)))
   | .se s, .sc y => some (.se (s.map fun (i, x) => (i, x * y)))
   | .se s, .se t =>
     if s.map (·.1) = t.map (·.1) then some (.se ((s.zip t).map fun (a, b) => (a.1, a.2 * b.2))) else none
+  | .sc x, .fr cs => some (.fr (cs.map fun (c : String × Series) => (c.1, c.2.map fun (i, y) => (i, x * y))))
+  | .fr cs, .sc y => some (.fr (cs.map fun (c : String × Series) => (c.1, c.2.map fun (i, x) => (i, x * y))))
+  | .fr cs, .fr ds =>
+    if cs.map (fun (c : String × Series) => (c.1, c.2.map (·.1))) = ds.map (fun (c : String × Series) => (c.1, c.2.map (·.1))) then
+      some (.fr ((cs.zip ds).map fun (c, d) => (c.1, (c.2.zip d.2).map fun (a, b) => (a.1, a.2 * b.2))))
+    else none
+  | .sc x, .arr ys => some (.arr (ys.map fun y => x * y))
+  | .arr xs, .sc y => some (.arr (xs.map fun x => x * y))
+  | .arr xs, .arr ys => if xs.length = ys.length then some (.arr ((xs.zip ys).map fun (a, b) => a * b)) else none
+  | _, _ => none
 
 /-- `union_post_processor` on numbers / Series -/
 def unionItems : List Item → Option Item
